@@ -27,6 +27,7 @@ import (
 	"strconv"
 	"strings"
 	"sync"
+	"sync/atomic"
 	"testing"
 
 	"honnef.co/go/tools/internal/verifx/vx"
@@ -40,6 +41,8 @@ func c12Gob(lr lintResult) []byte {
 	}
 	return b.Bytes()
 }
+
+var c12NBinVio atomic.Int64
 
 type c12Exec struct {
 	stdout, stderr string
@@ -68,7 +71,7 @@ func c12Run1(bin, dir string, stdin []byte, env []string, args ...string) c12Exe
 
 func c12BinViolate(res *vx.Result, kind, mode string, runs []c12Run, msg string) {
 	res.Count("violating_cases_"+kind, 1)
-	if c12NVio.Add(1) > c12MaxStored {
+	if c12NBinVio.Add(1) > 40 { // own quota: not crowded out by in-process reports
 		return
 	}
 	js, _ := json.Marshal(runs)
@@ -105,7 +108,7 @@ func c12CheckBinary(res *vx.Result, cp *c12Capture, bin, dir string, u *c12Unive
 	if o.panic != "" || o.pairs != u.expectPairs(exp) || o.alien != "" || (!c12EqStrings(o.text, want) && !c12TextSemEqual(o.text, want)) {
 		c12BinViolate(res, "gob", mode, u.describe(order), fmt.Sprintf("after gob round trip the merge prints\n%s\nbut the model gives\n%s\n%s %s",
 			c12Indent(o.textRaw), c12Indent(strings.Join(want, "\n")), o.panic, o.alien))
-		return
+		// go on: show what the binary itself prints
 	}
 	// 2. the real binary
 	var ex c12Exec
@@ -400,7 +403,12 @@ func c12CheckMatrix(res *vx.Result, e *c12MatrixEnv, m c12Module, cfgs []string,
 		return
 	}
 	if ex.exit > 1 || ex.stderr != "" {
-		res.Violate(key, fmt.Sprintf("staticcheck -matrix exits %d on matrix %v, stderr:\n%s", ex.exit, cfgs, c12Indent(ex.stderr)), cs)
+		if strings.Contains(ex.stderr, "panic:") || strings.Contains(ex.stderr, "internal error") {
+			res.Violate(key, fmt.Sprintf("staticcheck -matrix crashes (exit %d) on matrix %v, stderr:\n%s", ex.exit, cfgs, c12Indent(ex.stderr)), cs)
+		} else {
+			// go list / toolchain trouble is not a property violation
+			res.NotExhaustive(fmt.Sprintf("staticcheck -matrix failed on generated module %s %v: exit %d, stderr: %s", m.Name, cfgs, ex.exit, ex.stderr))
+		}
 		return
 	}
 	got := c12Lines(ex.stdout)
@@ -416,7 +424,11 @@ func c12CheckMatrix(res *vx.Result, e *c12MatrixEnv, m c12Module, cfgs []string,
 	// -matrix -f binary | -merge must print the same
 	res.Count("binary_execs_matrix", 1)
 	if b.err != "" || b.exit != 0 || b.stderr != "" {
-		res.Violate(key+";binary", fmt.Sprintf("staticcheck -matrix -f binary exits %d, stderr:\n%s", b.exit, c12Indent(b.stderr+b.err)), cs)
+		if strings.Contains(b.stderr, "panic:") || strings.Contains(b.stderr, "internal error") {
+			res.Violate(key+";binary", fmt.Sprintf("staticcheck -matrix -f binary crashes (exit %d), stderr:\n%s", b.exit, c12Indent(b.stderr)), cs)
+		} else {
+			res.NotExhaustive(fmt.Sprintf("staticcheck -matrix -f binary failed on generated module %s %v: exit %d, %s %s", m.Name, cfgs, b.exit, b.err, b.stderr))
+		}
 		return
 	}
 	mg := c12Run1(e.bin, dir, []byte(b.stdout), e.env(), "-merge")
@@ -552,7 +564,9 @@ func TestVerifC12Binary(t *testing.T) {
 	if expired {
 		res.NotExhaustive("internal deadline reached in the binary -merge level")
 	}
-	res.Count("runs_in_universe_"+u.name, int64(N))
+	if shardI == 0 {
+		res.Count("runs_in_universe_"+u.name, int64(N))
+	}
 	res.Bound = fmt.Sprintf("%s real binary -merge (files and stdin): every ordered sequence of <= 2 runs over universe %s (%d runs);", res.Bound, u.name, N)
 
 	// --- -matrix
